@@ -13,6 +13,10 @@ NOTES = ("Model-based verification with explicit TLA+ specifications (spec/*.tla
 
 NOT_APPLICABLE = {}
 
+ENGINES.append({"name": "indexer-protocol", "path": "spec/Indexer.tla",
+                "serves_properties": ["C12", "C13", "C14"],
+                "kind_free_text": "TLA+ model of the indexing protocol (commit batches, savepoints, reorg detection and rollback, crash/reopen) checked exhaustively by TLC; spec/IndexerTrace.tla replays recorded tracer events against its actions; spec/ProtoTrace.tla judges the observable contract (termination, agreement with the node, content digest a function of the chain, durable heights after crashes)"})
+
 _LT = ("TLC trace validation: every projected index state recorded after Index::update() on seeded random valid "
        "chains (real blocks on a mock node) must be a behaviour of spec/LedgerTrace.tla with PROP=%s; the predicates "
        "are the property's clauses evaluated on the whole observed state against the reference fold of the blocks")
@@ -26,3 +30,28 @@ def _lt(p, extra=""):
 
 
 CLAIMS = {p: _lt(p) for p in ["C01", "C02", "C03", "C04", "C05", "C06", "C07", "C08", "C09", "C10", "C11", "C16", "C17", "C37"]}
+
+
+_PNOTE = ("trusted: TLC, the harness, mockcore, redb's durability; content equality is judged on a digest of all table rows "
+          "except timing/commit bookkeeping; node chain changes only between update calls and always to a strictly longer "
+          "chain; mock headers = 0")
+CLAIMS["C12"] = {"engine": "indexer-protocol", "level": "model_checking",
+                 "text": "TLC checks Indexer.tla exhaustively for small constants (every commit/savepoint/fork/crash interleaving: when "
+                         "update returns Ok the index holds exactly the node's chain); the same chains are then indexed by the real code "
+                         "under commit intervals 1..5000, random partitions into update calls, reopen points and flag sets, and TLC "
+                         "validates the traces against ProtoTrace.tla: the content digest must be a function of (flags, chain prefix)",
+                 "note": _PNOTE, "technique": "TLC model checking of spec/Indexer.tla + TLA+ trace validation (ProtoTrace, IndexerTrace) of the real indexer"}
+CLAIMS["C13"] = {"engine": "indexer-protocol", "level": "fault_enumeration",
+                 "text": "every guarded crash point (mid-block, between blocks, before/after each commit, savepoint deletion/creation, "
+                         "rollback) x occurrence x settings: a child process aborts there; the reopened index must be at the last durable "
+                         "height (strict replay of the child's events against Indexer.tla), its content must equal a from-scratch index of "
+                         "that prefix, and after continuing to the tip it must equal a from-scratch index of the chain (ProtoTrace.tla); "
+                         "TLC also checks Indexer.tla with Crash enabled at every pc",
+                 "note": _PNOTE + "; crashes are abort() at hook points, not power loss inside a redb commit",
+                 "technique": "crash-point enumeration on the real indexer judged by TLA+ trace validation; TLC model checking of Indexer.tla with crashes"}
+CLAIMS["C14"] = {"engine": "indexer-protocol", "level": "model_checking",
+                 "text": "TLC checks Indexer.tla for every (height, fork depth, savepoint phase) within small constants incl. liveness "
+                         "(every update terminates) -- this is what found the non-terminating rollback that is now repaired; (height, depth) "
+                         "reorg cases and random fork histories are replayed on the real index and validated by TLC: the update terminates, "
+                         "Ok implies agreement with the node and content equal to a from-scratch index, unrecoverable implies flagged",
+                 "note": _PNOTE, "technique": "TLC model checking (safety + liveness) of spec/Indexer.tla + TLA+ trace validation of real reorg runs"}
